@@ -21,9 +21,15 @@
     F-16c  `_check_directory_structure_validity` collects all nodes, then tests all leaves
            (`checkLeafNode`); the pre-fix one-pass version is `checkLeafNodeCoded`.
     F-16d  the state point file of the archive root is `signac_statepoint.json` (`readSp` on `[]`).
+    F-16f  `_export_jobs` checks the NORMALISED paths: none absolute or starting with `..`, no two
+           equal, the root only for a single job, no leaf/node clash (`checkNormalized`).
+  and the CURRENT behaviour for the known finding
+    F-16e  `copytree_to_zip` stores files only: empty sub-directories (`Content.dir` entries) are
+           not members of a zip export (`zipMembers`); directory trees and tar archives keep them.
 
   Level of abstraction.  A file is `(relative path as list of components, Content)`;
-  `Content.sp v` is "a state point file holding the JSON value v", everything else is an opaque
+  `Content.sp v` is "a state point file holding the JSON value v", `Content.dir` an empty
+  sub-directory, everything else is an opaque
   byte string identified by a number.  A job directory is a list of files (the state point file
   and the document file are ordinary members), a project is a list of jobs.  A member path is
   a list of components; strings appear where the code manipulates strings (path functions,
